@@ -72,7 +72,7 @@ func init() {
 
 // valid reports whether the case is inside the property's domain.
 func (c *Case) valid() bool {
-	if c.C < 1 || c.Kr < 0 || c.A < 0 || c.A > c.Bf || c.Bf > c.Kr || c.Partial < 0 || c.Fix < 0 || c.Fix > 2 {
+	if c.C < 1 || c.Kr < 0 || c.A < 0 || c.A > c.Bf || c.Bf > c.Kr || c.Partial < 0 || c.Fix < 0 || c.Fix == 3 || c.Fix > 1<<12 {
 		return false
 	}
 	if c.Partial > 0 && (c.Partial >= c.C || c.Bf >= c.Kr) {
@@ -123,8 +123,11 @@ func run[S, B signal.SignalTypes](c *Case) (res kit.Result) {
 	root, w := kit.RootWindow[B](C, c.Kr, c.A, c.Bf, c.Partial, c.Fix)
 	model := kit.RootModel[B](C, c.Kr)
 	rootHdr := kit.HdrOf(root)
-	if c.Fix != 0 {
+	if c.Fix == 1 || c.Fix == 2 {
 		res.Class("headerNeverWrittenThrough")
+	}
+	if c.Fix >= 4 {
+		res.Class("contentAppendedInTwoPieces")
 	}
 	kit.ApplyPartial(model, C, c.Bf, c.Partial)
 	off := C * c.A
@@ -401,7 +404,7 @@ func Gen(t *rapid.T) *Case {
 	if c.Bf < c.Kr && c.C >= 2 && rapid.IntRange(0, 2).Draw(t, "partialSel") == 0 {
 		c.Partial = rapid.IntRange(1, c.C-1).Draw(t, "partial")
 	}
-	c.Fix = rapid.IntRange(0, 2).Draw(t, "fix")
+	c.Fix = kit.GenFix(t, "fix", c.C)
 	n := c.C*(c.Bf-c.A) + c.Partial
 	frames := c.Bf - c.A
 	nops := rapid.IntRange(1, 3).Draw(t, "nops")
